@@ -1,8 +1,9 @@
-(* Soundness of the leaf decisions (committed copy Impl/FilterLeaf.v of the translated api.py text).
-   The same statements are re-proved on every run on the freshly translated text by
-   coq/genproofs/GenFilterProofs.v (identical script, other import). *)
+(* C05 tie: soundness of the leaf decisions re-proved on the text translators/py2coq.py regenerates
+   from fastparquet/api.py on every run (PqGen.GenFilter).  Same script as
+   theories/Proofs/FilterLeafProofs.v; nothing in it depends on the shape of the code. *)
 From Coq Require Import ZArith List String Bool Lia.
-From Pq Require Import Base.PyVal Impl.Filter Impl.FilterLeaf Proofs.PyValProofs Proofs.FilterTactics.
+From Pq Require Import Base.PyVal Impl.Filter Proofs.PyValProofs Proofs.FilterTactics Proofs.FilterProofs.
+From PqGen Require Import GenFilter.
 Import ListNotations.
 Open Scope string_scope.
 Open Scope Z_scope.
@@ -43,16 +44,13 @@ Proof.
     + exact (leaf_not_in_int_sound vs vmin vmax z Hlo Hhi H).
 Qed.
 
-(* The helper filter_not_in on its own (the rule the pinned tree applied to every chunk; the repaired
-   filter_val calls it only when vmin == vmax) is not a sound pruning rule: min=0, max=4, `not in [4]`
-   is answered "skip" although the cell 0 satisfies the condition. *)
-Theorem not_in_helper_refuted : exists vs vmin vmax z,
-  lo_ok_int vmin z /\ hi_ok_int vmax z /\
-  ok_true (filter_not_in (ints vs) vmin vmax) = true /\ sat "not in" (PInt z) (ints vs) = true.
-Proof.
-  exists [4], (PInt 0), (PInt 4), 0. split; [|split; [|split]].
-  - right. exists 0. split; [left; reflexivity|lia].
-  - right. exists 4. split; [left; reflexivity|lia].
-  - vm_compute. reflexivity.
-  - vm_compute. reflexivity.
-Qed.
+(* the row-group level theorem instantiated with the regenerated leaf *)
+Theorem gen_prune_sound : forall (R : Type) (cell : R -> string -> pv) conv known rgs f kept,
+  prog_good all_ops (normalize f) ->
+  (forall rg, In rg rgs -> rg_valid R cell conv (normalize f) rg) ->
+  filter_row_groups R filter_val conv known rgs f = Ok kept ->
+  (exists keepf, kept = filter keepf rgs) /\
+  (forall rg r, In rg rgs -> In r (rg_rows rg) -> sat_dnf R cell r (normalize f) = true -> In rg kept).
+Proof. intros R cell conv. exact (prune_sound R cell filter_val conv all_ops leaf_all_sound). Qed.
+Print Assumptions leaf_all_sound.
+Print Assumptions gen_prune_sound.
